@@ -175,10 +175,11 @@ def run(ctx):
             ctx.ok('C13.5-key-order', q, '%d comparison(s), operands mirror each other' % k)
     for ty in sorted(t_ for t_ in ctx.F.adts if t_.startswith('erltf::types::') and len(ctx.F.adts[t_]['variants']) == 1):
         fo, fb = set(), set()
-        for q in reach['owned']:
-            fo |= fields_touched(P.B(q), ty)
-        for q in reach['borrowed']:
-            fb |= fields_touched(P.B(q), ty)
+        # the comparator bodies themselves (with their closures): identifiers are compared inline there
+        for QB in bodies_of_fn(P, CMP_O):
+            fo |= fields_touched(QB, ty)
+        for QB in bodies_of_fn(P, CMP_B):
+            fb |= fields_touched(QB, ty)
         if not fo and not fb:
             continue
         inst = 'fields:' + ty.rsplit('::', 1)[1]
